@@ -911,7 +911,11 @@ impl Connection {
 
             if sent.largest_acked.is_some() {
                 self.spaces[space_id].pending_acks.acks_sent();
-                self.timers.stop(Timer::MaxAckDelay);
+                // The timer is only armed for the Data space: an ACK in another space leaves the
+                // delayed acknowledgement of 1-RTT packets due
+                if space_id == SpaceId::Data {
+                    self.timers.stop(Timer::MaxAckDelay);
+                }
             }
 
             // Keep information about the packet around until it gets finalized
